@@ -37,17 +37,23 @@ def exhaustive(tier):
     for cls in ('DynGraph', 'DynDiGraph'):
         for target, delim in (('gz', ' '), ('bz2', '\t'), ('plain', ','), ('bytesio', ';')):
             cases.append({'big': True, 'cls': cls, 'removal': True, 'io': {'delim': delim, 'enc': 'utf-8', 'target': target}})
-    return {'cases': cases, 'bound': '8 fixed large round trips (12 nodes with multi-byte ids, 66 pairs x 140 instants = 9240 rows, ~110 KiB) in addition to the generated cases'}
+    # the same content shifted byte by byte, so that every alignment of a multi-byte character with a 64 KiB
+    # block boundary of the compressed readers occurs
+    for shift in range(1, 11):
+        for target in ('gz', 'bz2')[shift % 2:][:1]:
+            cases.append({'big': True, 'shift': shift, 'cls': 'DynGraph', 'removal': True, 'io': {'delim': ' ', 'enc': 'utf-8', 'target': target}})
+    return {'cases': cases, 'bound': '18 fixed large round trips (12 nodes with multi-byte ids, 66 pairs x 300 instants = 19800 rows, ~250 KiB; 10 of them byte-shifted by 1-10) in addition to the generated cases'}
 
 
 def big_case(case):
     names = ['é%d' % i for i in range(6)] + ['ß%d' % i for i in range(3)] + ['日%d' % i for i in range(3)]
+    names[0] = 'x' * case.get('shift', 0) + names[0]      # appears in the first rows only: shifts everything after them
     ops = []
     k = 0
     for i in range(len(names)):
         for j in range(i + 1, len(names)):
             a, b = (i, j) if (k % 3 or case['cls'] == 'DynGraph') else (j, i)
-            ops.append(['add', a, b, 100 + (k % 5), 100 + (k % 5) + 140])
+            ops.append(['add', a, b, 100 + (k % 5), 100 + (k % 5) + 300])
             k += 1
     return dict(case, nodes=names, ops=ops)
 
@@ -105,7 +111,7 @@ def run_case(case, rec):
             if rec.check('C09.read.call', okr, lambda: '%s read_snapshots raised %r' % (ctx, H)):
                 rec.check('C09.roundtrip.class', type(H) is type(G), lambda: '%s read back as %r' % (ctx, type(H)))
                 common.check_presence(rec, 'C09.roundtrip', H, M, d.nodes, ctx=ctx,
-                                      probes=[99, 100, 101, 104, 170, 239, 240, 243, 244, 245] if case.get('big') else None)
+                                      probes=[99, 100, 101, 104, 170, 399, 400, 403, 404, 405] if case.get('big') else None)
                 used = {x for k in M.orient for x in M.orient[k]}
                 okn, hn = safe(lambda: set(H.nodes()))
                 rec.check('C09.roundtrip.nodes', okn and hn == used, lambda: '%s nodes read back %r, endpoints %r' % (ctx, hn, used))
